@@ -347,6 +347,11 @@ func (b *tqcache) PutMany(ctx context.Context, bs []blocks.Block) error {
 
 	err := b.blockstore.PutMany(ctx, good.blocks)
 	if err != nil {
+		// The batch may have been applied in part (or in full) before the
+		// error: forget what was cached about these keys, as Put does.
+		for _, key := range good.keys {
+			b.cacheInvalidate(key)
+		}
 		return err
 	}
 	for i, key := range good.keys {
